@@ -30,6 +30,9 @@ func Run(c *hx.Ctx) {
 	if only == "" || only == "transfer" {
 		runTransfer(c)
 	}
+	if only == "" || only == "st" {
+		runStartTiming(c)
+	}
 	if only == "" || only == "stage" {
 		runStage(c)
 	}
